@@ -348,6 +348,8 @@ def call_np(ip, name, args, kwargs, lineno):
     if name == "append":
         a, v = args[:2]
         a = as_arr(ip, a)
+        if isinstance(v, (list, tuple)):
+            v = ip.list_to_arr(list(v))
         M.use("np.append")
         f = a.snapshot()
         if isinstance(v, SArr):
